@@ -156,6 +156,10 @@ theorem treeInv_batch (sid : Nat) (cmds : List Cmd) {sv : Server} (h : TreeInv s
     TreeInv (cmds.foldl (fun sv c => pushAll (runCmd sv sid c)) sv) :=
   ix_foldl_inv _ TreeInv (fun _ c hsv => treeInv_pushAll (treeInv_runCmd sid c hsv)) cmds sv h
 
+theorem treeInv_setm (sid : Nat) (p : Bytes) (vs : List Nat) {sv : Server} (h : TreeInv sv) :
+    TreeInv (vs.foldl (fun sv v => runCmd sv sid (.set p v false)) sv) :=
+  ix_foldl_inv _ TreeInv (fun _ _ hsv => treeInv_runCmd sid _ hsv) vs sv h
+
 /-- one op line of the engine `srv` (whatever its tokens) -/
 theorem treeInv_step {st : St} (toks : List String) (h : TreeInv st.sv) : TreeInv (step st toks).1.sv := by
   unfold step
@@ -167,6 +171,7 @@ theorem treeInv_step {st : St} (toks : List String) (h : TreeInv st.sv) : TreeIn
     | exact treeInv_attach _ _ h
     | exact treeInv_detach _ h
     | exact treeInv_pushAll (treeInv_batch _ _ h)
+    | exact treeInv_pushAll (treeInv_setm _ _ _ h)
     | exact treeInv_pushAll (treeInv_runCmd _ _ h)
     | (rename_i sl hh _ _ _ _ _ _ heq
        have := treeInv_attach sl hh h; rw [heq] at this; exact this)
